@@ -292,7 +292,7 @@ let exec (s : t) (verbose : bool) (f : string array) (obs : string option) : str
     else (match b with
       | `G _ -> let rb = run b in let ra = run a in "parked " ^ ra ^ " " ^ rb
       | _ -> let ra = run a in let rb = run b in "parked " ^ ra ^ " " ^ rb)
-  | "concstress" -> "done"
+  | "concstress" | "concmix" -> "done"
   | "probeclose" -> ""
   | "hostile" -> ""
   | "close" ->
